@@ -177,7 +177,37 @@ fn damage_json(v: &mut serde_json::Value, rng: &mut Prng) -> &'static str {
     }
     let big = [Value::from(u64::MAX), Value::from(-1i64), Value::from(1u64 << 32), Value::from(1e300), Value::from(0u64), Value::Null, Value::from("7"), Value::from(true), Value::Array(vec![]), Value::Object(Default::default())];
     match node {
-        Value::Array(a) => match rng.below(6) {
+        Value::Array(a) => match rng.below(8) {
+            6 | 7 => {
+                // the array arrives as ONE STRING (the alternative encodings a human-readable format invites: all
+                // words as fixed-width hex digits, or decimal numbers with separators), of exactly the plausible
+                // length, now and then with a multi-byte UTF-8 character in place of as many ASCII bytes - half
+                // of the time right across a multiple of the word width
+                let width = *rng.pick(&[16usize, 16, 8]);
+                let mut t = String::new();
+                let hex = rng.chance(3, 4);
+                for x in a.iter() {
+                    let w = x.as_u64().unwrap_or(0);
+                    if hex {
+                        if width == 16 {
+                            t.push_str(&format!("{:016x}", w));
+                        } else {
+                            t.push_str(&format!("{:08x}", w as u32));
+                        }
+                    } else {
+                        t.push_str(&format!("{},", w));
+                    }
+                }
+                if rng.chance(2, 3) && t.len() > 8 {
+                    let (ch, n) = *rng.pick(&[("\u{e9}", 2usize), ("\u{20ac}", 3), ("\u{1d11e}", 4)]);
+                    let k = t.len() / width;
+                    let p = if rng.chance(1, 2) && k > 1 { (rng.range(1, k as u64 - 1) as usize * width).saturating_sub(rng.range(1, n as u64 - 1) as usize) } else { rng.below((t.len() - n) as u64) as usize };
+                    let p = p.min(t.len() - n);
+                    t.replace_range(p..p + n, ch);
+                }
+                *node = Value::from(t);
+                "array_as_string"
+            }
             0 => {
                 let x = a.last().cloned().unwrap_or(Value::from(1u64));
                 for _ in 0..*rng.pick(&[1usize, 2, 255, 256, 1000]) {
@@ -664,7 +694,7 @@ impl Scenario for C14 {
         }
     }
     fn rule(&self) -> String {
-        "Build: opt-level 2 with overflow-checks and debug-assertions ON. Every call into the crates under test runs under catch_unwind; a caught panic whose payload is not the simulator's own clock-abort token is a violation, keyed by operation and panic site. Workloads: (a) the run generators of C05, C08, C09, C10, C11, C12, C13, C16 and C17 re-used unchanged (their own oracles are ignored here); (b) hostile_det: all 19 deterministic types and the 3 public cores, all-0x00 / all-0xFF / 0x80.. / random seeds, u64 edge seeds, from_rng / try_from_rng with every source fault kind, pre-advance to every buffer index, 1..220 ops of next_u32/next_u64/fill_bytes(0..3 blocks+7)/jump/long_jump/clone/==/Debug/serde snapshot+restore; (c) hostile_jitter: JitterRng with rounds 1..=255 over clocks where jump_pos31, jump_neg31, jump_2p32, backward, big_pause (plus wrap_u64, zero_reading and the rest of the catalogue) are placed densely (2-40% of readings) so they land on the first, second and third delta of collections and of test_timer; ops next_u32/next_u64/fill_bytes/timer_stats/set_rounds/clone/Debug/test_timer followed by set_rounds(result); set_rounds(0), the one documented panic, is issued, contained, and followed by further use. distinct_nontrivial = distinct (workload, type, seeding route / op kind / enabled clock-fault set) signatures. Also: (hostile_snapshot) a stored image comes back damaged (JSON arrays longer/shorter/nested, fields missing/renamed/unknown, scalars replaced; bincode torn/extended/flipped), read back through slice, reader and Value: deserialising may fail, it must not panic; (seeding_sweep) 1500..4000 constructions per run from consecutive/sparse/hashed seeds; set_rounds(0) contained and followed by further use; Debug also while the thread unwinds / on another thread.".into()
+        "Build: opt-level 2 with overflow-checks and debug-assertions ON. Every call into the crates under test runs under catch_unwind; a caught panic whose payload is not the simulator's own clock-abort token is a violation, keyed by operation and panic site. Workloads: (a) the run generators of C05, C08, C09, C10, C11, C12, C13, C16 and C17 re-used unchanged (their own oracles are ignored here); (b) hostile_det: all 19 deterministic types and the 3 public cores, all-0x00 / all-0xFF / 0x80.. / random seeds, u64 edge seeds, from_rng / try_from_rng with every source fault kind, pre-advance to every buffer index, 1..220 ops of next_u32/next_u64/fill_bytes(0..3 blocks+7)/jump/long_jump/clone/==/Debug/serde snapshot+restore; (c) hostile_jitter: JitterRng with rounds 1..=255 over clocks where jump_pos31, jump_neg31, jump_2p32, backward, big_pause (plus wrap_u64, zero_reading and the rest of the catalogue) are placed densely (2-40% of readings) so they land on the first, second and third delta of collections and of test_timer; ops next_u32/next_u64/fill_bytes/timer_stats/set_rounds/clone/Debug/test_timer followed by set_rounds(result); set_rounds(0), the one documented panic, is issued, contained, and followed by further use. distinct_nontrivial = distinct (workload, type, seeding route / op kind / enabled clock-fault set) signatures. Also: (hostile_snapshot) a stored image comes back damaged (JSON arrays longer/shorter/nested, fields missing/renamed/unknown, scalars replaced; bincode torn/extended/flipped), read back through slice, reader and Value: deserialising may fail, it must not panic; (seeding_sweep) 1500..4000 constructions per run from consecutive/sparse/hashed seeds; set_rounds(0) contained and followed by further use; Debug also while the thread unwinds / on another thread. Damaged snapshots also arrive with an array replaced by ONE STRING of the plausible length (hex / decimal encodings of the words, now and then with a 2..4-byte UTF-8 character across a word boundary). Runs with a real-clock JitterRng::new() execute it on shifted calendar dates (1970 .. beyond 2554); one run in nine is executed a second time from a thread-local destructor while its thread exits.".into()
     }
     fn assumptions(&self) -> Vec<String> {
         vec![
